@@ -18,6 +18,7 @@
 //	status, body, alive := p.Get(url) / p.Post(url, body) / p.PostJSON(url, v) / p.HTTP(method, url, body)
 //	meta, data, trace := p.Writes()                             // store writes so far; trace of metadata keys ("P4:1")
 //	r, alive := p.Call("delrepo"|"deldata"|"iid"|"mutid"|"rawcount", uuid, name) // exported package functions
+//	p.Plan("data:+2:after")                                     // die right after the 2nd data write from now on
 //	p.Quit()   clean shutdown        p.Kill()   SIGKILL        p.Dead / p.Exit / p.Stderr afterwards
 //	p.Init     the child initialised a fresh metadata store     p.Meta0   metadata writes during start-up
 //
@@ -63,7 +64,7 @@ const Marker = "dvh-child"
 
 // Req is one line on the child's stdin.
 type Req struct {
-	Op   string `json:"op"`             // "http" | "writes" | "quit" | "sleep" | "delrepo" | "deldata" | "iid" | "mutid" | "rawcount"
+	Op   string `json:"op"`             // "http" | "writes" | "quit" | "sleep" | "delrepo" | "deldata" | "iid" | "mutid" | "rawcount" | "plan"
 	Name string `json:"name,omitempty"` // data instance name (deldata, iid, mutid); U then holds a uuid
 	M    string `json:"m,omitempty"`    // method
 	U    string `json:"u,omitempty"`    // url
@@ -205,6 +206,23 @@ func Main(args []string) {
 						say(errResp(err))
 					} else {
 						say(Resp{S: 200, N: d.NewMutationID()})
+					}
+				case "plan": // arrange a crash relative to now: U = "class:+K:mode" (the K-th write of the class from now on)
+					var class, mode string
+					var k int
+					parts := strings.Split(rq.U, ":")
+					if len(parts) == 3 {
+						class, mode = parts[0], parts[2]
+						fmt.Sscan(strings.TrimPrefix(parts[1], "+"), &k)
+						m, d, _ := crashkv.Counts()
+						base := m
+						if class == "data" {
+							base = d
+						}
+						crashkv.Plan(class, base+k, mode)
+						say(Resp{S: 200})
+					} else {
+						say(Resp{S: 400, Err: "bad plan"})
 					}
 				case "rawcount": // number of keys still stored under the instance id given in Ms
 					say(Resp{S: 200, N: rawCount(dvid.InstanceID(rq.Ms))})
